@@ -46,6 +46,7 @@ structure Tables where
   metaArgsUnchecked : Bool
   ptrValueDistinct : Bool
   unionAtMember : Bool
+  impliedSchemaUnvalidated : Bool
   reflectOptionalRefused : Bool
   eventVarsEmpty : Bool
   symbolBaseEnum : Bool
